@@ -71,7 +71,10 @@ def k_e(v):
     return bool(OFFSET_ONLY.match(t)) and c.get("impl", "").startswith("ok ") and c.get("impl") in c.get("as_if_00", [])
 
 
-KNOWN = {"D-C20b": k_b, "D-C20c": k_c, "D-C20d": k_d, "D-C20e": k_e}
+# D-C20b/c/d/e were fixed in /repo (17b546f, b75c1b5, 4bf5835): the class matchers stay as diagnostics
+# only (they label a regression in the evidence histogram) and suppress nothing.
+CLASSES = {"D-C20b": k_b, "D-C20c": k_c, "D-C20d": k_d, "D-C20e": k_e}
+KNOWN = {}
 
 
 # ---------------------------------------------------------------------------------------------
@@ -280,7 +283,7 @@ def oracle(ctx):
         case = {"entry": entry, "sep": sep, "zero_as_utc": zero, "kind": kind, "string": s, "impl": impl[i],
                 "spec": vals, "lax": ic.spec_values(lx), "as_if_00": ic.spec_values(al)}
         msg = "%s(%r)%s: %s" % (entry, s, "" if sep is None else " sep=%r" % sep, what)
-        cls = next((k for k, pred in sorted(KNOWN.items()) if pred({"case": case})), None)
+        cls = next((k for k, pred in sorted(CLASSES.items()) if pred({"case": case})), None)
         cases.append((cls, msg, case, {"impl": impl[i], "spec_strict": vals}))
     # failures outside every known class are recorded first, then the known classes round-robin
     # (the violation list kept by the harness is capped)
@@ -288,7 +291,7 @@ def oracle(ctx):
     for c in cases:
         rank[c[0]] = rank.get(c[0], 0) + 1
         order.append((c[0] is not None, rank[c[0]] if c[0] is not None else 0, c))
-        ctx.count("failures_outside_known_classes" if c[0] is None else "failures_in_class_" + c[0])
+        ctx.count("failures_unclassified" if c[0] is None else "failures_like_fixed_" + c[0])
     for _, _, (cls, msg, case, det) in sorted(order, key=lambda o: (o[0], o[1])):
         ctx.violation(msg, case, det)
 
